@@ -19,6 +19,7 @@ type TimedCall struct {
 	Err       error
 	Panic     interface{}
 	Inv, Resp int64
+	Took      time.Duration // wall-clock duration of the call
 }
 
 // ThreadOp is one operation of a thread: source text, and an optional context constructor
@@ -57,7 +58,9 @@ func RunThreads(w *World, clock *atomic.Int64, progs [][]ThreadOp, timeout time.
 				}
 				c := TimedCall{Tid: t, Src: progs[t][i].Src}
 				c.Inv = clock.Add(1)
+				t0 := time.Now()
 				o := Guard(func() (types.MalType, error) { return lisp.EVAL(ctx, ast, w.Env) })
+				c.Took = time.Since(t0)
 				c.Resp = clock.Add(1)
 				cancel()
 				c.Val, c.Err, c.Panic = o.Val, o.Err, o.Panic
